@@ -115,6 +115,10 @@ class Session:
                 elif t == "set_size":
                     self.objs[op[1]].mc.sample_size = op[2]
                     out = ["none"]
+                elif t == "seed":
+                    import numpy as np
+                    np.random.seed(op[1])      # the user re-seeds numpy: no effect on anything but Monte Carlo draws
+                    out = ["none"]
                 else:
                     raise ValueError(op)
             except (ValueError, TypeError, ArithmeticError) as e:
@@ -128,13 +132,16 @@ VALS = [0.5, 1.0, 1.5, 2.0, 2.5, 3.0, 4.0, 5.0, 6.0, 8.0, 0.75, 1.25]
 ERRS = [0.0, 0.125, 0.25, 0.5, 0.0625, 1.0]
 
 
-def gen_history(rng, n_ops, mc_share=0.25, rational=True):
+def gen_history(rng, n_ops, mc_share=0.25, rational=True, seeds=False):
     """a history over positive measurements and the operations + - * / (division only by measurements or
     positive constants), so every formula stays defined under any change of the values"""
     ops = []
     kinds, errs = [], []
     rho = {}                     # current correlations: kept diagonally dominant, hence positive semi-definite
     n_meas = rng.randrange(2, 4)
+    seed0 = rng.choice([1, 2, 3])
+    if seeds and rng.random() < 0.6:
+        ops.append(["seed", seed0])          # ... possibly the same seed again later in the session
     for _ in range(n_meas):
         e = rng.choice(ERRS)
         ops.append(["meas", rng.choice(VALS), e])
@@ -150,6 +157,9 @@ def gen_history(rng, n_ops, mc_share=0.25, rational=True):
     while len(ops) < n_ops:
         r = rng.random()
         ds = der_ids()
+        if seeds and rng.random() < 0.06:
+            ops.append(["seed", seed0 if rng.random() < 0.7 else rng.choice([1, 2, 3])])
+            continue
         if (not ds) or (r < 0.16 and n_new < 6):
             op = rng.choice(["add", "sub", "mul", "div", "mul", "add", "pow"])
             i = rng.randrange(len(kinds))
@@ -165,6 +175,10 @@ def gen_history(rng, n_ops, mc_share=0.25, rational=True):
                 ops.append(["bin", op, c, ["obj", i]] if rng.random() < 0.5 else ["bin", op, ["obj", i], c])
             elif rng.random() < 0.15:
                 ops.append(["un", "neg", ["obj", i]])
+            elif rng.random() < 0.2:
+                # a formula that is undefined on part of the sampled range (the measurement may have an uncertainty as
+                # large as its value): Monte Carlo discards those draws, reads must stay stable all the same
+                ops.append(["un", "sqrt", ["obj", rng.choice(meas_ids())]])
             else:
                 ops.append(["bin", op, ["obj", i], ["obj", rng.randrange(len(kinds))]])
             kinds.append("der")
@@ -279,7 +293,7 @@ def coq_obs(o):
 
 def coq_hcase(ops, outs, I):
     scale = max([1.0] + [abs(o[1]) for o in outs if o[0] in ("val", "err", "deriv")])
-    body = coq_list(["({}, {})".format(I(coq_op(op, I)), coq_obs(o)) for op, o in zip(ops, outs)])
+    body = coq_list(["({}, {})".format(I(coq_op(op, I)), coq_obs(o)) for op, o in zip(ops, outs) if op[0] != "seed"])
     return "({}, {})".format(qlit(Fraction(scale) / 10 ** 9), body)
 
 
@@ -316,7 +330,7 @@ def rebuild_afresh(s, k, memo=None):
             idx = [i for i, o in enumerate(s.objs) if o is operand]
             args.append(rebuild_afresh(s, idx[0], memo))
     opn = f.operator
-    res = {"neg": lambda a: -a, "add": lambda a, b: a + b, "sub": lambda a, b: a - b, "mul": lambda a, b: a * b,
+    res = {"sqrt": lambda a: q.sqrt(a), "neg": lambda a: -a, "add": lambda a, b: a + b, "sub": lambda a, b: a - b, "mul": lambda a, b: a * b,
            "div": lambda a, b: a / b, "pow": lambda a, b: a ** b}[opn](*args)
     memo[k] = res
     return res
@@ -389,7 +403,7 @@ def determinism_oracle(ops, rng):
     plain = []
     keep = []
     for i, op in enumerate(ops):
-        if op[0] in ("set_global", "set_own", "reset_own", "peek", "set_size"):
+        if op[0] in ("set_global", "set_own", "reset_own", "peek", "set_size", "seed"):
             continue
         plain.append(op)
         keep.append(i)
